@@ -352,10 +352,10 @@ theorem uniform_emitter_radiance (scene : Ray K → Option (Hit K × Mat K σ)) 
     (maxDepth : Nat) (jitter : σ → Ray K × σ)
     (S : Sampler) (hN : 1 ≤ S.numSamples) (conv : Nat → V3 K → V3 K → Bool) (g : σ) :
     let draw : σ → V3 K × σ := fun g =>
-      recurse scene sqrt abs cutoff eps maxDepth true (jitter g).2 (jitter g).1 ⟨1, 1, 1⟩
+      recurse scene sqrt abs cutoff eps [] maxDepth true (jitter g).2 (jitter g).1 ⟨1, 1, 1⟩
     (∀ g, (draw g).1 = E) ∧
       (estimateColor (Nat.cast : Nat → K) S conv draw g).1 = E ∧
-      ∀ ray, rayCasterPixel scene ray = E := by
+      ∀ ray, rayCasterPixel scene sqrt [] ray = E := by
   intro draw
   have h1 : ∀ g, (draw g).1 = E := by
     intro g
@@ -367,5 +367,46 @@ theorem uniform_emitter_radiance (scene : Ray K → Option (Hit K × Mat K σ)) 
   obtain ⟨c, m, hs, hE, hA, _⟩ := hclosed ray
   simp only [rayCasterPixel, hs, hE, hA]
   ext <;> simp [V3.add, V3.zero]
+
+/-- **A single lit matte surface renders to its closed form.**  If the primary ray hits a surface
+whose BSDF is a constant `ρ` (a matte, Lambert-like surface), `MaxDepth = 0`, `Cutoff ≤ 1`, and no
+point light is shadowed at the hit point, then every sample of the `RecursiveRayTracer` equals the
+`RayCaster` pixel, which is `ambient + emission + Σ_l ShadeCollision_l(normal, l − p)·ρ` with
+`ShadeCollision = colour(·/dist²) · ¼·max(0, n·l̂)`; hence (by `constant_stream_mean`) the
+ray-traced pixel is that value for all sampler settings. -/
+theorem lit_matte_surface_radiance (scene : Ray K → Option (Hit K × Mat K σ)) (sqrt abs : K → K)
+    (cutoff eps : K) (hcut : cutoff ≤ 1) (lights : List (PointLight K)) (ray : Ray K)
+    (c : Hit K) (m : Mat K σ) (hs : scene ray = some (c, m)) (rho : V3 K)
+    (hm : ∀ n s d, m.bsdf n s d = rho)
+    (hshadow : ∀ l ∈ lights,
+      let point := ray.origin.add (ray.dir.scale c.scale)
+      let ld := l.origin.sub point
+      match scene ⟨point.add ((ld.normalize sqrt).scale eps), ld⟩ with
+      | some (sc, _) => ¬ sc.scale < 1
+      | none => True)
+    (S : Sampler) (hN : 1 ≤ S.numSamples) (conv : Nat → V3 K → V3 K → Bool) (g : σ) :
+    let closed := lights.foldl (fun col l =>
+      col.add ((l.shade sqrt c.normal (l.origin.sub (ray.origin.add (ray.dir.scale c.scale)))).mul rho))
+      (m.ambient.add m.emission)
+    rayCasterPixel scene sqrt lights ray = closed ∧
+      (estimateColor (Nat.cast : Nat → K) S conv
+        (fun g => recurse scene sqrt abs cutoff eps lights 0 true g ray ⟨1, 1, 1⟩) g).1 = closed := by
+  intro closed
+  have hrc : rayCasterPixel scene sqrt lights ray = closed := by
+    simp only [rayCasterPixel, hs, hm, closed]
+  refine ⟨hrc, ?_⟩
+  apply constant_stream_mean S hN conv _ g closed
+  intro g'
+  rw [← hrc]
+  exact recurse_lit_matte scene sqrt abs cutoff eps hcut lights ray g' c m hs rho hm hshadow
+
+/-- Non-vacuity: a floor `z = 0` seen from `(0,0,2)` looking straight down, one white light at
+`(0,0,1)` above the hit point, `ρ = (1/2, 1/2, 1/2)`: ambient 1/8 + ¼·1·½ = 1/4 in every channel. -/
+example :
+    let m : Mat Rat Nat := ⟨⟨0, 0, 0⟩, ⟨1/8, 1/8, 1/8⟩, fun _ _ _ => ⟨1/2, 1/2, 1/2⟩, fun g n _ => (n, g), fun _ _ _ => 1⟩
+    let ray : Ray Rat := ⟨⟨0, 0, 2⟩, ⟨0, 0, -1⟩⟩
+    let scene : Ray Rat → Option (Hit Rat × Mat Rat Nat) := fun r => if r = ray then some (⟨2, ⟨0, 0, 1⟩, 0⟩, m) else none
+    rayCasterPixel scene (fun _ => 1) [⟨⟨0, 0, 1⟩, ⟨1, 1, 1⟩, false⟩] ray = ⟨1/4, 1/4, 1/4⟩ := by
+  decide +kernel
 
 end M3d.C20
